@@ -3,6 +3,7 @@ import ThriftVerif.Facts.ExpectWire
 #print axioms ThriftVerif.Properties.C13.stream_alloc_bound
 #print axioms ThriftVerif.Properties.C13.envelope_alloc_bound
 #print axioms ThriftVerif.Properties.C13.frame_alloc_bound
+#print axioms ThriftVerif.Properties.C13.frame_alloc_bound_any_threshold
 #print axioms ThriftVerif.Properties.C13.steps_linear
 #print axioms ThriftVerif.Properties.C13.decoded_list_count_le_input
 #print axioms ThriftVerif.Properties.C13.lazy_counts_le_input
